@@ -64,6 +64,7 @@ TIERS = {
                          Groups={'iter', 'agg', 'cat'})),
         ('agg-u9', dict(MaxDepth=2, MaxLen=4, InitLen=2, UniverseName='u9', GridName='full', Groups={'agg'})),
         ('focus-u3', dict(MaxDepth=2, MaxLen=4, InitLen=3, UniverseName='u3', GridName='full', Groups={'focus'})),
+        ('eq-ux', dict(MaxDepth=2, MaxLen=4, InitLen=2, UniverseName='ux', GridName='full', Groups={'agg', 'iter'})),
         ('comp-u4-d2', dict(MaxDepth=3, MaxLen=4, InitLen=2, UniverseName='u4', GridName='small', Groups=ALL_GROUPS)),
     ],
     'thorough': [
@@ -72,6 +73,8 @@ TIERS = {
         ('vals-u9', dict(MaxDepth=2, MaxLen=4, InitLen=3, UniverseName='u9', GridName='full',
                          Groups={'iter', 'agg', 'cat'})),
         ('comp-u4-d2', dict(MaxDepth=3, MaxLen=4, InitLen=2, UniverseName='u4', GridName='small', Groups=ALL_GROUPS)),
+        ('eq-ux', dict(MaxDepth=2, MaxLen=4, InitLen=2, UniverseName='ux', GridName='full', Groups={'agg', 'iter'})),
+        ('eq-ux-3', dict(MaxDepth=2, MaxLen=4, InitLen=3, UniverseName='ux', GridName='full', Groups={'agg'})),
         ('focus-u4', dict(MaxDepth=2, MaxLen=4, InitLen=3, UniverseName='u4', GridName='full', Groups={'focus'})),
         ('focus-u3-d2', dict(MaxDepth=3, MaxLen=3, InitLen=2, UniverseName='u3', GridName='small',
                              Groups={'focus', 'iter'})),
@@ -167,6 +170,10 @@ TESTS = {'isint': '{v} instance of xs:integer', 'gt 1': '{v} gt 1', 'eq 1': '{v}
          'le 2.5': '{v} le 2.5', "eq 'a'": "{v} eq 'a'"}
 
 
+def dep_text(dep: str, X: str, x: str) -> str:
+    return {'1 to $x - 1': f'(1 to {x} - 1)', '$x to 2': f'({x} to 2)', 'S[. lt $x]': f'{X}[. lt {x}]'}[dep]
+
+
 def consumer_text(F: str, E: str, v: str) -> str:
     return {'exists': f'exists({E})', 'empty': f'empty({E})', 'head': f'head({E})', 'count': f'count({E})',
             'some': f'(some {v} in {E} satisfies {v} gt 0)', 'geq': f'({E} = 5)'}[F]
@@ -227,6 +234,27 @@ def expr_for(X: str, action: str, args: tuple, n: int, sfx: str) -> str:
     if action == 'For2Self':
         body = args[0].replace('$x', x).replace('$y', y)
         return f'for {x} in {X}, {y} in {X} return {body}'
+    if action == 'ForDep':
+        dep, f, form = args
+        D = dep_text(dep, X, x)
+        body = f.replace('$x', x).replace('$y', y)
+        if form == 'clauses':
+            return f'for {x} in {X}, {y} in {D} return {body}'
+        return f'for {x} in {X} return for {y} in {D} return {body}'
+    if action == 'ForDep3':
+        f, form = args
+        z = f'$z{sfx}'
+        body = f.replace('$x', x).replace('$y', y).replace('$z', z)
+        if form == 'clauses':
+            return f'for {x} in {X}, {y} in (1 to {x} - 1), {z} in ({y} to 1) return {body}'
+        return f'for {x} in {X} return for {y} in (1 to {x} - 1) return for {z} in ({y} to 1) return {body}'
+    if action == 'QuantDep':
+        q, dep, t, form = args
+        D = dep_text(dep, X, x)
+        test = t.replace('$x', x).replace('$y', y)
+        if form == 'clauses':
+            return f'{q} {x} in {X}, {y} in {D} satisfies {test}'
+        return f'{q} {x} in {X} satisfies ({q} {y} in {D} satisfies {test})'
     if action == 'Quant':
         q, p, form = args
         test = TESTS[p].format(v=x)
@@ -395,8 +423,14 @@ def item_mismatch(exp, obs, relax_exact: bool = False):
     if obs[1] != 'fin':
         return 'value'
     want = float(frac(exp))
-    if exp['ap'] and t == 'flt':
+    q = frac(exp)
+    dyadic = q.denominator & (q.denominator - 1) == 0
+    if t == 'flt' and (exp['ap'] or not dyadic):
+        # single-precision rounding of xs:float is implementation-defined
         return None if abs(obs[2] - want) <= abs(want) * 1e-6 else 'value'
+    if exp['ap']:
+        # inexact xs:double arithmetic (operands that are not dyadic): a few ulps
+        return None if abs(obs[2] - want) <= abs(want) * 1e-12 else 'value'
     return None if obs[2] == want else 'value'
 
 
@@ -412,7 +446,8 @@ def class_key_obs(o):
     if o[0] in ('int', 'dec'):
         return ('num', 'fin', str(o[1]))
     if o[0] in ('flt', 'dbl'):
-        return ('num', 'fin', str(Fraction(o[2]))) if o[1] == 'fin' else ('num', o[1], '')
+        # the shortest decimal that denotes this double (0.1e0 -> 1/10), as in the specification
+        return ('num', 'fin', str(Fraction(repr(o[2])))) if o[1] == 'fin' else ('num', o[1], '')
     if o[0] == 'str':
         return ('str', tuple(o[1]))
     if o[0] == 'bool':
@@ -494,7 +529,7 @@ def second_oracle(src, action, args, dst):
 _G: dict = {}
 NUMT = ('int', 'dec', 'flt', 'dbl')
 NUM_TOKS = {'1', '2', '2.5', '1e0', '0.0', 'NaN'}
-_VAR = re.compile(r'\$([xyiv])\d+')
+_VAR = re.compile(r'\$([xyzvi])\d+')
 
 
 def type_sig(items) -> str:
@@ -515,6 +550,8 @@ def features(src, action, args, dst, outcome, version, spelling, level):
                               (any(x['t'] in NUMT for x in items) or any(a in NUM_TOKS for a in args if isinstance(a, str))))
                 or (any(a == 'true()' for a in args) and any(x['t'] in NUMT for x in items)),
                 has_flt=any(x['t'] == 'flt' for x in items) or 'flt' in argtypes,
+                nondyadic=any(x['t'] in NUMT and x['k'] == 'fin' and x['q'][1] & (x['q'][1] - 1) for x in items)
+                or any(a in ('0.1', '0.1e0', '0.3e0') for a in args if isinstance(a, str)),
                 has_nan=any(x['k'] == 'nan' for x in items),
                 has_str=any(x['t'] == 'str' for x in items),
                 expected_kind=('err:' + dst['code']) if dst['k'] == 'err' else dst['k'])
@@ -757,7 +794,7 @@ def run(chk: core.Check) -> None:
                         'For2Self', 'Quant', 'Quant2', 'Map', 'PredItem', 'PredSelf', 'Count', 'Empty', 'Exists',
                         'IndexOf', 'DistinctValues', 'ZeroOrOne', 'OneOrMore', 'ExactlyOne', 'Sum', 'SumZero', 'Avg',
                         'Min', 'Max', 'StringJoin', 'StringJoinAny', 'StringJoinTypeErr', 'Comma',
-                        'MapFocus', 'ForFocus', 'PredFocus', 'QuantFocus'}
+                        'MapFocus', 'ForFocus', 'PredFocus', 'QuantFocus', 'ForDep', 'ForDep3', 'QuantDep'}
     if expected_actions - all_acts:
         raise tla.MachineryError(f'actions never fired (vacuous): {sorted(expected_actions - all_acts)}')
     chk.coverage['exhaustive'] = True
